@@ -222,6 +222,23 @@ class C08(Prop):
         'attribute values must additionally contain "&" only as the head of one of the five escapes the renderer uses',
     )
 
+    def selfcheck(self):
+        """The scanner must reject known-bad outputs and accept a known-good one (guards against a vacuous oracle)."""
+        bad = ['<p><img src="x"onerror="alert(1)" alt="a" /></p>\n', '<p>a < b</p>\n', '<p>a &x; b</p>\n', '<ul>\n<li>a\n</ul>\n',
+               '<script>x</script>\n', '<p><a href="u" onclick="x">a</a></p>\n', '<p>a<br>b</p>\n', '<p><em>a</p></em>\n',
+               '<p>a > b</p>\n', '<p><a href="a>b">x</a></p>\n', '<p><a href=\'u\'>x</a></p>\n']
+        for out in bad:
+            if not htmlscan.scan(out)[1]:
+                raise RuntimeError('HTML scanner accepts %r' % out)
+        good = ('<h1>t</h1>\n<p>a <em>b</em> &amp; <code>&lt;c&gt;</code> <a href="/u?a=1&amp;b=2" title="t">l</a><br />\n'
+                '<img src="i.png" alt="x" title="&quot;q&quot;" /></p>\n<ol start="3">\n<li>x</li>\n</ol>\n<hr />\n'
+                '<table>\n<thead>\n<tr>\n<th align="left">h</th>\n</tr>\n</thead>\n<tbody>\n</tbody>\n</table>\n'
+                '<pre><code class="language-py">x &quot; y\n</code></pre>\n')
+        probs = htmlscan.scan(good)[1]
+        if probs:
+            raise RuntimeError('HTML scanner rejects a well-formed sample: %r' % (probs,))
+        return 'scanner self-test: %d bad outputs rejected, 1 good accepted' % len(bad)
+
     def parts(self):
         return [Random(), Helpers(), HelperStrings()]
 
